@@ -13,8 +13,9 @@ for pid in sys.argv[1:]:
   sigp = os.path.join(common.LEAN, 'index', f'{pid}.sig')
   if os.path.exists(sigp):
     os.remove(sigp)
-  ctx.lean_build([f'DinoProofs.Properties.{pid}'])
-  ctx.audit(f'DinoProofs.Properties.{pid}', theorems, [])
+  module = {'DYN': 'DinoProofs.Lemmas.DynamicsInstWitness'}.get(pid, f'DinoProofs.Properties.{pid}')
+  ctx.lean_build([module])
+  ctx.audit(module, theorems, [])
   missing = [t for t in theorems if t not in ctx.sigs_seen]
   if missing or ctx.breaks:
     print(pid, 'NOT pinned:', missing[:5], ctx.breaks[:2])
